@@ -179,6 +179,9 @@ var denyInit = []string{"runtime", "os", "syscall", "sync", "reflect", "internal
 
 func (e *Engine) initAllowed(p *ssa.Package) bool {
 	path := p.Pkg.Path()
+	if path == "net/netip" {
+		return true // z4 / z6noz handles are needed for address validity and family
+	}
 	for _, d := range append(denyInit, e.Cfg.NoInit...) {
 		if path == d || strings.HasPrefix(path, d) && (strings.HasSuffix(d, "/") || strings.HasPrefix(path, d+"/") || strings.HasPrefix(path, d)) {
 			return false
